@@ -21,7 +21,7 @@ ASSUMPTIONS = [
     "of tree/appendonlytree.go (C01)",
     "configuration consistency: the start LER is the exit-tree root after the last deposit at or before StartL2Block",
     "claim proofs / L1 info tree data of imported exits are outside C03 (C09)",
-    "aggchain-prover (FEP) flow: theorem *_fep_partial only, no correspondence run",
+    "aggchain-prover (FEP) flow: theorem *_fep_partial, backed by the FEP stream of the harness (scripted prover; see C02)",
 ] + base.ASSUMPTIONS[:2]
 TRUSTED_EXTRA = base.TRUSTED_EXTRA + [
     "reference exit tree of the property predicate: hand transcription of DepositContractBase (Model/Contracts.v), fed with getLeafValue "
@@ -49,7 +49,7 @@ def nontrivial_key(o):
             seen.add(sb["height"])
             if sb["exits"] and sb["prev"] != "27ae5ba08d7291c96c8cbddcc148bf48a6d68c7974b94356f53754ef6171d757":
                 ok = True
-    return [o["in"]["retry"], o["in"].get("agg_prev"), o["in"]["start_block"], o["in"].get("seeds"), o["in"]["steps"]] if ok else None
+    return [o["in"].get("flow"), o["in"]["retry"], o["in"].get("agg_prev"), o["in"]["start_block"], o["in"].get("seeds"), o["in"]["steps"]] if ok else None
 
 
 LEVEL_TEXT = ("Kernel-checked: for every state satisfying the protocol invariant of C02 (i.e. after every schedule) and every certificate "
